@@ -32,5 +32,5 @@ def worker(slot):
                 v = [l for l in r.stdout.splitlines() if l.startswith("violation")]
                 bad.append(f"{prop} rc={r.returncode} {v[0][:260] if v else r.stderr[-200:]}")
         print(name, "SILENT" if not bad else "ALARM", *bad, sep="\n   " if bad else " ", flush=True)
-ts = [threading.Thread(target=worker, args=(i,)) for i in range(slots)]
+ts = [threading.Thread(target=worker, args=(4 + i,)) for i in range(slots)]
 [t.start() for t in ts]; [t.join() for t in ts]
